@@ -205,11 +205,18 @@ Definition unmarshal (z : sstate) : option pstate :=
   else let p := deserialize z in
        if suite_known (p_suite p) then Some p else None.
 
+(* a state captured before the handshake switched to its keys (local epoch 0, or no master secret
+   yet - e.g. the *State handed to a VerifyConnection callback): generateInternalState refuses it
+   with ErrHandshakeInProgress; UnmarshalBinary does not look at this *)
+Definition pre_keys (p : pstate) : bool :=
+  (p_local_epoch p =? 0) || match p_master p with [] => true | _ :: _ => false end.
+
 (* generateInternalState + (conn.go prepareHandshakeStart12 with ResumeState): what is restored,
    and what starts from its zero value *)
 Definition gen_internal (p : pstate) : option istate :=
   if p_suite p =? 0 then None
   else if p_version p =? v13 then None
+  else if pre_keys p then None                           (* ErrHandshakeInProgress *)
   else if negb (suite_known (p_suite p)) then None      (* InitCipherSuite: ErrCipherSuiteNotSet *)
   else Some {| i_version := v12;                          (* forced, whatever p_version says *)
                i_local_epoch := p_local_epoch p; i_remote_epoch := p_remote_epoch p;
